@@ -316,11 +316,13 @@ def rule_orphan_split(ctx, crate, rule="R-ORPHAN-SPLIT"):
         to_orphans = sl.has_field("orphan_lines")
         n += 1
         if to_orphans:
-            ok = K.in_variant_region(b, crate, c.bb, D.LINETYPE, {"Text", "Empty"})
+            ok = K.in_variant_region(b, crate, c.bb, D.LINETYPE, {"Text", "Empty"}) or \
+                c.bb not in K.variant_reach(b, crate, D.LINETYPE, "Bar")           # (the kind may be held in a flag: `let is_text = matches!(..)`)
             ctx.check(ok, rule, "text-to-orphans", b.name, c.loc(), "only Text/Empty lines are queued as orphan lines",
                       "a Bar line can be queued as an orphan (log) line", cfg)
         else:
-            ok = K.in_variant_region(b, crate, c.bb, D.LINETYPE, {"Bar"})
+            ok = K.in_variant_region(b, crate, c.bb, D.LINETYPE, {"Bar"}) or \
+                (c.bb not in K.variant_reach(b, crate, D.LINETYPE, "Text") and c.bb not in K.variant_reach(b, crate, D.LINETYPE, "Empty"))
             ctx.check(ok, rule, "bar-kept", b.name, c.loc(), "only Bar lines stay in the member's draw state",
                       "a Text/Empty line can stay in the member's draw state (it would be repainted on every draw)", cfg)
     # text-like variants are classified alike: no LineType test in the split (or its closures) separates Text from Empty
